@@ -69,6 +69,13 @@ namespace AIToolbox::POMDP {
         // Don't go down leaf nodes.
         if (!root.actionData.size())
             return;
+        // A node that is currently severed from the tree has already had
+        // the counts of its children reduced by treePrune; cutting an edge
+        // here as well would reduce them twice. treeRevive restores exactly
+        // the edges of the actions that are not marked, so we must not mark
+        // any while the node is out of the tree.
+        if (root.count == 0)
+            return;
 
         for (auto a = 0; a < root.actionData.cols(); ++a) {
             // Ignore already pruned branches
